@@ -720,6 +720,7 @@ class _Borrow:
         self.unexpected: list[str] = []   # errors nothing in this borrower's own script explains
         self.own_errors: list[str] = []   # errors after this borrower's own misuse of the connection
         self.abnormal = False
+        self.verified_start = False       # its FIRST I/O step read at least one response of its own, and nothing foreign before
 
     def clean_so_far(self) -> bool:
         return all(s == "clean" for s, _ in self.steps)
@@ -863,8 +864,11 @@ def _run_steps(svc: Any, b: _Borrow) -> None:
             if policy == "stop":
                 return
             continue
+        first_io = not b.steps
         status, err = _unary(svc, b, j, step) if step[0] == "unary" else _stream(svc, b, j, step)
         b.steps.append(status)
+        if first_io:
+            b.verified_start = bool(b.seen) and _own(b.seen[0], b) and not b.unexpected
         if status[0] != "clean":
             b.abnormal = True
         if err is not None:
@@ -1011,16 +1015,18 @@ def run_reuse(case: dict[str, Any]) -> Outcome:
         if b.worker in poisoned:
             continue
         direct = borrows[b.reused_from]
-        prev = direct
-        # a holder whose own script was clean but who never verifiably read a response of its own (no I/O at all, or
-        # only a stream opened and closed without a tick - close() swallows read errors) neither dirtied nor vouched
-        # for the connection: the state it found was left by an earlier holder
-        while (prev.clean_so_far() and not prev.unexpected and not any(_own(t, prev) for t in prev.seen)
-               and prev.reused_from is not None):
-            prev = borrows[prev.reused_from]
-        pf, certain = prev.final()
+        # Who left the connection dirty?  Walk the re-use chain back to the last holder that verifiably found the
+        # connection clean (its first I/O step read a response of its own) or got a fresh worker; within that stretch
+        # the first holder (in time) whose own script went wrong is the culprit.  Holders in between may have been
+        # victims themselves without noticing: close() swallows read errors, stale bytes make a later call of the
+        # same borrower misbehave.
+        chain = [direct]
+        while not chain[0].verified_start and chain[0].reused_from is not None:
+            chain.insert(0, borrows[chain[0].reused_from])
+        prev = next((h for h in chain if not h.clean_so_far() or h.unexpected), direct)
+        pf, certain = direct.final()
         key = _key(prev)
-        who = (f"previous holder: borrower {prev.idx}, steps {prev.spec['steps']}, raise_at={prev.spec['raise_at']}, "
+        who = (f"{'previous holder' if prev is direct else 'culprit (an earlier holder of this worker)'}: borrower {prev.idx}, steps {prev.spec['steps']}, raise_at={prev.spec['raise_at']}, "
                f"exc={prev.spec['exc']}, on_exc={prev.spec['on_exc']}, step results {[s for s, _ in prev.steps]}")
         saw = f"borrower {b.idx} then observed tags {sorted(set(b.seen))[:6]}, errors: {b.unexpected[:2]}"
         problem: tuple[str, str] | None = None
